@@ -170,7 +170,8 @@ static ftoa_out run_ftoa(int kind, uint64_t b, int8_t prec)
         {
         case 0: return igris_f32toa(f_of((uint32_t)b), buf, prec);
         case 1: return igris_f64toa(d_of(b), buf, prec);
-        default: return igris_ftoa(d_of(b), buf, prec);
+        case 2: return igris_ftoa(d_of(b), buf, prec);
+        default: return igv32_igris_ftoa(d_of(b), buf, prec); // the double is converted to float32_t at the call
         }
     };
     const size_t BIG = 48;
@@ -564,9 +565,9 @@ static void run_op(const std::vector<std::string> &w, const std::string &, out &
         o.result = s;
         return;
     }
-    if (op == "f32" || op == "f64" || op == "ftoa")
+    if (op == "f32" || op == "f64" || op == "ftoa" || op == "ftoa32")
     {
-        int kind = op == "f32" ? 0 : op == "f64" ? 1 : 2;
+        int kind = op == "f32" ? 0 : op == "f64" ? 1 : op == "ftoa" ? 2 : 3; // 3: igris_ftoa of the WITHOUT_ATOF64 build (takes a float32_t)
         uint64_t b = strtoull(w[1].c_str(), 0, 16);
         int prec = atoi(w[2].c_str());
         ftoa_out r = run_ftoa(kind, b, (int8_t)prec);
@@ -931,7 +932,7 @@ static void gen(rng &r, const std::string &tier)
         uint64_t db = bits(d);
         if (r.chance(60)) db += r.range(-3, 3) * (r.chance(50) ? 1 : (1ll << 28)); // between two floats
         float fx = (float)d_of(db);
-        const char *k = r.chance(50) ? "f64" : "ftoa";
+        const char *k = r.chance(40) ? "f64" : r.chance(50) ? "ftoa" : "ftoa32";
         if (f32_out_of_range(bits(fx)) || (std::isinf(fx) && std::isfinite(d_of(db)))) printf("@F:C12-ftoa-int32-range %s %016llx %d\n", k, (unsigned long long)db, pick_prec(r));
         else printf("%s %016llx %d\n", k, (unsigned long long)db, pick_prec(r));
     }
